@@ -356,7 +356,16 @@ class Body:
                     else:
                         out.add((("const", op.get("repr") or op.get("fn") or "?"), path))
                 elif k == "aggregate":
-                    out.add((("agg", b, i), path))
+                    sub = self._agg_field(rv, path)
+                    if sub is not None:
+                        op, rest = sub
+                        if op["k"] in ("copy", "move"):
+                            for (r, p) in self.trace(op["place"], through, _seen, depth + 1):
+                                out.add((r, p + rest))
+                        else:
+                            out.add((("const", op.get("val") if op.get("val") is not None else (op.get("repr") or op.get("fn"))), rest))
+                    else:
+                        out.add((("agg", b, i), path))
                 else:
                     out.add((("rv", k, b, i), path))
             else:
@@ -371,7 +380,127 @@ class Body:
                     for (r, p) in self.trace(t["args"][idx]["place"], through, _seen, depth + 1):
                         out.add((r, p + path))
                 else:
-                    out.add((("call", b, callee(t)), path))
+                    item = None
+                    if (t["func"].get("declared") == "std::iter::Iterator::next" and len(path) >= 2
+                            and path[0] == "as Some" and path[1] == "0" and through is not None and len(through) > 2):
+                        item = self._iter_item(t["args"][0], path[2:], through, _seen, depth + 1)
+                    if item:
+                        out |= item
+                    else:
+                        out.add((("call", b, callee(t)), path))
+        return out
+
+    @staticmethod
+    def _agg_field(rv, path):
+        """If path starts with a field of this aggregate, (operand, rest of path)."""
+        if not path:
+            return None
+        ak = rv.get("akind")
+        first = path[0]
+        if ak == "tuple" or ak == "array":
+            if first.isdigit() and int(first) < len(rv["ops"]):
+                return rv["ops"][int(first)], tuple(path[1:])
+            if ak == "array" and first.startswith("[") and first[1:-1].lstrip("-").isdigit() and int(first[1:-1]) < len(rv["ops"]):
+                return rv["ops"][int(first[1:-1])], tuple(path[1:])
+            return None
+        if ak == "adt":
+            fields = rv.get("fields") or []
+            p = list(path)
+            if p and p[0] == "as " + rv.get("variant", ""):
+                p = p[1:]
+            if p and p[0] in fields:
+                return rv["ops"][fields.index(p[0])], tuple(p[1:])
+        return None
+
+    ITER_PASS = ("into_iter", "rev", "skip", "take", "copied", "cloned", "peekable", "by_ref", "fuse", "skip_while",
+                 "take_while", "step_by", "filter", "inspect")
+    ITER_SRC = ("iter", "iter_mut", "into_iter", "windows", "chunks", "values", "keys", "drain")
+
+    def _iter_item(self, it_op, item_path, through, _seen, depth):
+        """Origins of (a component of) the item yielded by the iterator operand, resolved back through
+        enumerate / zip / chain / rev / ... to the collection that is iterated.  None if unknown."""
+        if it_op["k"] not in ("copy", "move") or depth > 40:
+            return None
+        refs_only = {}
+        tr = self.trace(it_op["place"], refs_only, _seen, depth + 1)
+        out = set()
+        for (r, p) in tr:
+            if r[0] != "call" or p:
+                return None
+            t = self.term(r[1])
+            dec = t["func"].get("declared") or ""
+            seg = last_seg(dec)
+            subs = t["func"].get("substs") or [""]
+            self_ty = subs[0]
+            is_iter_ty = ("std::iter::" in self_ty or "::Iter<" in self_ty or "::IntoIter<" in self_ty or "::IterMut<" in self_ty) \
+                and not self_ty.startswith(("std::vec::Vec<", "&std::vec::Vec<", "&mut std::vec::Vec<", "[", "&[", "&mut ["))
+            args = t["args"]
+            if seg == "enumerate":
+                if item_path and item_path[0] == "0":
+                    out.add((("index", r[1]), tuple(item_path[1:])))
+                elif item_path and item_path[0] == "1":
+                    sub = self._iter_item(args[0], tuple(item_path[1:]), through, _seen, depth + 1)
+                    if not sub:
+                        return None
+                    out |= sub
+                else:
+                    return None
+            elif seg == "zip":
+                if item_path and item_path[0] in ("0", "1"):
+                    sub = self._iter_item(args[int(item_path[0])], tuple(item_path[1:]), through, _seen, depth + 1)
+                    if not sub:
+                        return None
+                    out |= sub
+                else:
+                    return None
+            elif seg == "chain":
+                for a in args[:2]:
+                    sub = self._iter_item(a, item_path, through, _seen, depth + 1)
+                    if not sub:
+                        return None
+                    out |= sub
+            elif seg in self.ITER_PASS and is_iter_ty:
+                sub = self._iter_item(args[0], item_path, through, _seen, depth + 1)
+                if not sub:
+                    return None
+                out |= sub
+            elif seg in self.ITER_SRC and args and args[0]["k"] in ("copy", "move"):
+                if "std::ops::Range" in self_ty:
+                    out.add((("range", r[1]), tuple(item_path)))
+                else:
+                    for (r2, p2) in self.trace(args[0]["place"], through, _seen, depth + 1):
+                        out.add((r2, p2 + ("[]",) + tuple(item_path)))
+            else:
+                return None
+        return out or None
+
+    def deep_sources(self, op, depth=3, through=TRANSPARENT):
+        """(root, path) origins of an operand, additionally looking through the arguments of the calls that
+        produced it (up to `depth` calls) - 'what can this value depend on'."""
+        out = set()
+        if op["k"] not in ("copy", "move"):
+            return out
+        work = [(op["place"], depth)]
+        seen = set()
+        while work:
+            pl, d = work.pop()
+            for (r, p) in self.trace(pl, through):
+                if (r, p) in seen:
+                    continue
+                seen.add((r, p))
+                out.add((r, p))
+                if r[0] == "call" and d > 0:
+                    t = self.term(r[1])
+                    for a in t["args"]:
+                        if a["k"] in ("copy", "move"):
+                            work.append((a["place"], d - 1))
+                            # by-value tuples of closure call arguments
+                            for (r2, p2) in self.trace(a["place"], through):
+                                if r2[0] == "agg":
+                                    st = self.blocks[r2[1]]["stmts"][r2[2]]
+                                    for o in st["rv"]["ops"]:
+                                        if o["k"] in ("copy", "move"):
+                                            work.append((o["place"], d - 1))
         return out
 
     def trace_operand(self, op, through=TRANSPARENT):
